@@ -371,6 +371,20 @@ func GenTopLevel(r *RNG, depth int) (stmts []string, globals []string, feat map[
 			g.trace()
 		}
 	}
+	// function literals at top level: each statement of a one-statement-per-Eval cutting starts at line 1, so literals
+	// of different statements stand at the same position; one declares a type, the next has a parameter of that
+	// name, and a later top-level block uses a variable of that name
+	if r.Intn(2) == 0 {
+		g.f("top-level-literals-with-local-type")
+		k := 2 + r.Intn(6)
+		g.w("area := func(w int, h int) int {\n\ttype rect struct {\n\t\tw int\n\t\th int\n\t}\n\tq := &rect{w: w, h: h}\n\treturn q.w * q.h\n}\n")
+		g.w("rect := area(3, %d)\n", k)
+		g.w("if rect > 10 {\n\tprintln(\"rect big\", rect)\n} else {\n\tprintln(\"rect small\", rect)\n}\n")
+		g.w("grow := func(rect int) int {\n\treturn rect + 1\n}\n")
+		g.w("for i := 0; i < 2; i++ {\n\trect += grow(i)\n}\n")
+		g.w("println(\"lits\", area(2, 3), grow(rect), rect)\n")
+		g.declare("rect", "int")
+	}
 	g.w("sf := scaleF(1.5)\n")
 	g.w("hi := halfI(9)\n")
 	g.w("println(\"stale\", sf, hi, halfI(7))\n")
